@@ -22,9 +22,10 @@ RULES = {
     "R2": "record coherence of the scan: record variables are updated together; no iteration skips the commit block without raising",
     "R3": "successor arithmetic: (i, p) -> (i + 1, 0) if p + 1 >= batch_size else (i, p + 1)",
     "R4": "completion marker: validity predicate and returned metadata use the same reader; incomplete directory raises naming it",
+    "R6": "scan order: the enumerated iteration / plate directories are visited in the order of their integer index (sorted with an int-valued key), not in string order",
     "R5": "inputs: screen = the scan's current screen (predecessor output); thetas/chunks from plate_0 of the same iteration; excludes from the same iteration",
 }
-MIN = {"R1": 2, "R2": 3, "R3": 1, "R4": 2, "R5": 4}
+MIN = {"R1": 2, "R2": 3, "R3": 1, "R4": 2, "R5": 4, "R6": 2}
 TRUSTED = ["glob/os.path semantics", "the pipeline publishes screen_metadata.json last (completion marker) - not checked here"]
 TECHNIQUE = "who-may-call scan, co-definition (torn update) analysis on the CFG, integer relational normal forms"
 LEVEL_TEXT = ("Two necessary conditions of crash-safe resumption are shape facts of the scan: it never deletes a completed "
@@ -343,7 +344,84 @@ def r5(ctx):
                   "a launch writes to a directory other than the next step's")
 
 
-RULE_FUNCS = [r1, r2, r3, r4, r5]
+def _int_valued_key(ctx, f, k):
+    """True / False / None: the sort key is a function whose value is int(..) of its argument's name"""
+    if k is None:
+        return False
+    if isinstance(k, ast.Lambda):
+        body = k.body
+    elif isinstance(k, ast.Name):
+        q = ctx.R.chase(f.mod, k.id)
+        h = ctx.R.funcs.get(q) if isinstance(q, str) else None
+        if h is None:
+            return None
+        rs = returns(h.node)
+        if len(rs) != 1:
+            return None
+        body = inline(rs[0].value, single_defs(h.node))
+    else:
+        return None
+    if isinstance(body, ast.Tuple) and body.elts:
+        body = body.elts[0]
+    if isinstance(body, ast.Call) and call_name(body) == "int":
+        return True
+    if any(isinstance(x, ast.Call) and call_name(x) == "int" for x in ast.walk(body)):
+        return None
+    return False
+
+
+def r6(ctx):
+    """The record of the scan is `the last valid step visited`, and a plate's position is compared with its index: both are only
+    right when iteration and plate directories are visited in the order of their integer index.  glob gives no order and plain
+    string order puts iter_10 before iter_2."""
+    f = scan_fn(ctx)
+    loops = [n for n in walk_own(f.node) if isinstance(n, ast.For)]
+    ctx.need(len(loops) >= 2, f"{f.site()}: nested scan loops not found")
+    n = 0
+    for lp in loops:
+        it = lp.iter
+        while isinstance(it, ast.Call) and call_name(it) in ("enumerate", "list", "iter", "tuple") and it.args:
+            it = it.args[0]
+        src, key, found = it, None, None
+        if isinstance(it, ast.Name):
+            # the last binding of the name before the loop, and an in-place sort of it
+            defs = sorted([x for x in walk_own(f.node) if isinstance(x, ast.Assign) and len(x.targets) == 1 and U(x.targets[0]) == it.id and x.lineno < lp.lineno], key=lambda x: x.lineno)
+            sorts = sorted([c for c in calls(f.node, tail="sort") if U(c.func.value) == it.id and c.lineno < lp.lineno], key=lambda x: x.lineno)
+            if sorts and (not defs or sorts[-1].lineno > defs[-1].lineno):
+                found, key = "sort", kwargs(sorts[-1]).get("key")
+            elif defs:
+                src = defs[-1].value
+        if found is None and isinstance(src, ast.Call) and call_name(src) == "sorted" and src.args:
+            found, key = "sorted", kwargs(src).get("key")
+            if kwargs(src).get("reverse") is not None:
+                raise AnalysisError(f"r6: {f.site()}: `{U(src)[:60]}` sorts in reverse; scan direction not analysed")
+        # only loops over enumerated directories matter: the iterable comes from glob / listdir / scandir
+        def from_listing(e, depth=0):
+            if depth > 4:
+                return False
+            if any(isinstance(x, ast.Call) and (call_name(x) or "").split(".")[-1] in ("glob", "iglob", "listdir", "scandir", "iterdir") for x in ast.walk(e)):
+                return True
+            for nm in names_in(e):
+                ds = [x for x in walk_own(f.node) if isinstance(x, ast.Assign) and len(x.targets) == 1 and U(x.targets[0]) == nm and x.lineno < lp.lineno]
+                if any(from_listing(d.value, depth + 1) for d in ds if d.value is not e):
+                    return True
+            return False
+        if not from_listing(src):
+            continue
+        n += 1
+        site = f"{f.site()}::for {U(lp.target)} in {U(lp.iter)[:30]}"
+        if found is None:
+            raise AnalysisError(f"r6: {site}: the directories are not brought into an order by sorted(..) / .sort(..) before the loop; the visiting order is not one this rule knows")
+        iv = _int_valued_key(ctx, f, key)
+        if iv is None:
+            raise AnalysisError(f"r6: {site}: sort key `{U(key)}` is not recognised as the integer index of the directory name")
+        ctx.check("R6", site, iv, f"directories are visited in the order of their integer index ({found} with key `{U(key)}`)",
+                  f"directories are visited in {'plain string order' if key is None else 'the order of `' + U(key) + '`'}, not by integer index: iter_10 / plate_10 come before "
+                  f"iter_2 / plate_2, so an earlier step is taken for the last completed one and finished steps are launched again")
+    ctx.need(n >= 2, f"r6: {f.site()}: only {n} scan loops over enumerated directories found")
+
+
+RULE_FUNCS = [r1, r2, r3, r4, r5, r6]
 
 
 def run(ctx):
@@ -360,6 +438,7 @@ def _rep(a, b):
 
 
 WITNESSES = [
+    ("iteration dirs in string order", ORCH_MOD, _rep("    iter_dirs = sorted(iter_dirs, key=dir_sort_key)\n", "    iter_dirs = sorted(iter_dirs)\n"), ["R6"]),
     ("plate index reset per iteration dir", ORCH_MOD, _rep("        plate_dirs = sorted(plate_dirs, key=dir_sort_key)\n\n        for idx, plate_dir", "        plate_dirs = sorted(plate_dirs, key=dir_sort_key)\n\n        current_plate_idx = 0\n\n        for idx, plate_dir"), ["R2"]),
     ("rmtree of the iteration dir", ORCH_MOD, _rep("    shutil.rmtree(job_output_dir, ignore_errors=True)", "    shutil.rmtree(os.path.dirname(job_output_dir), ignore_errors=True)"), ["R1"]),
     ("successor test off by one", ORCH_MOD, _rep("if current_plate_idx >= batch_size - 1:", "if current_plate_idx >= batch_size:"), ["R3"]),
